@@ -2,8 +2,10 @@
 EXTENDS C14_Exact
 \* a chain, a hyper label on three tensors with a tail, a tensor with three legs (one dangling)
 ShapesQ == << << <<"a">>, <<"a", "b">>, <<"b">> >>,
-              << <<"a">>, <<"a">>, <<"a", "b">>, <<"b">> >> >>
-ShapesT == ShapesQ \o << << <<"a", "b", "c">>, <<"a">>, <<"b", "d">>, <<"d">> >> >>
+              << <<"a">>, <<"a">>, <<"a", "b">> >> >>
+ShapesT == ShapesQ \o << << <<"a">>, <<"a">>, <<"a", "b">>, <<"b">> >>,
+                         << <<"a", "b", "c">>, <<"a">>, <<"b", "d">>, <<"d">> >> >>
+ShapesS == << << <<"a">>, <<"a", "b">>, <<"b">> >> >>
 ValsQ == {1, 2}
 ValsT == {-1, 1, 2}
 =============================================================================
